@@ -1,3 +1,3 @@
-module simrt
+module verif.local/simrt
 
 go 1.19
